@@ -87,6 +87,30 @@ pub open spec fn e_bootstrap(p: PoolWrite, m: BootstrapMethodWrite) -> (Seq<u8>,
     let a = pw_handle(p, *m.handle);
     (be16(a.0) + be16(m.arguments@.len() as u16) + args_bytes(m.arguments@, m.arguments@.len() as int), a.1)
 }
+// JVMS 4.7.13 / 4.7.14 local_variable_table / local_variable_type_table entry: u2 start_pc, u2 length, u2 name_index, u2 descriptor_index / signature_index, u2 index;
+// one entry per local variable that carries a descriptor / a signature, none for the others
+pub uninterp spec fn range_start(t: Labels, r: LabelRange) -> u16;
+pub uninterp spec fn range_len(t: Labels, r: LabelRange) -> u16;
+impl Labels { #[verifier::external_body] pub fn try_get_range(&self, range: &LabelRange) -> (res: Result<(u16, u16), VErr>) ensures res matches Ok(v) ==> v == (range_start(*self, *range), range_len(*self, *range)) { unimplemented!() } }
+pub uninterp spec fn lvname_str(n: LocalVariableName) -> JavaString;
+pub uninterp spec fn fdesc_str(n: FieldDescriptor) -> JavaString;
+pub uninterp spec fn fsig_str(n: FieldSignature) -> JavaString;
+impl LocalVariableName { #[verifier::external_body] pub fn as_inner(&self) -> (r: &JavaString) ensures *r == lvname_str(*self) { unimplemented!() } }
+impl FieldDescriptor { #[verifier::external_body] pub fn as_inner(&self) -> (r: &JavaString) ensures *r == fdesc_str(*self) { unimplemented!() } }
+impl FieldSignature { #[verifier::external_body] pub fn as_inner(&self) -> (r: &JavaString) ensures *r == fsig_str(*self) { unimplemented!() } }
+impl PoolWrite { #[verifier::external_body] pub fn put_utf8(&mut self, value: &JavaString) -> (res: Result<u16, VErr>) ensures res matches Ok(i) ==> (i, *final(self)) == pw_utf8(*old(self), *value) { unimplemented!() } }
+pub open spec fn e_lv_entry(labels: Labels, p: PoolWrite, lv: Lv, text: JavaString) -> (Seq<u8>, PoolWrite) {
+    let a = pw_utf8(p, lvname_str(lv.name)); let b = pw_utf8(a.1, text);
+    (be16(range_start(labels, lv.range)) + be16(range_len(labels, lv.range)) + be16(a.0) + be16(b.0) + be16(lv.index.index), b.1)
+}
+pub open spec fn e_lvt(labels: Labels, p: PoolWrite, lv: Lv) -> (Seq<u8>, PoolWrite) {
+    match lv.descriptor { Some(d) => e_lv_entry(labels, p, lv, fdesc_str(d)), None => (Seq::<u8>::empty(), p) }
+}
+pub open spec fn e_lvtt(labels: Labels, p: PoolWrite, lv: Lv) -> (Seq<u8>, PoolWrite) {
+    match lv.signature { Some(d) => e_lv_entry(labels, p, lv, fsig_str(d)), None => (Seq::<u8>::empty(), p) }
+}
+pub open spec fn count_desc(l: Seq<Lv>, k: int) -> int decreases k { if 0 < k <= l.len() { count_desc(l, k - 1) + (if l[k - 1].descriptor is Some { 1int } else { 0int }) } else { 0 } }
+pub open spec fn count_sign(l: Seq<Lv>, k: int) -> int decreases k { if 0 < k <= l.len() { count_sign(l, k - 1) + (if l[k - 1].signature is Some { 1int } else { 0int }) } else { 0 } }
 // the first k entries of a list, each through the pool the previous one left
 pub open spec fn w_fold<X>(p: PoolWrite, s: Seq<X>, k: int, f: spec_fn(PoolWrite, X) -> (Seq<u8>, PoolWrite)) -> (Seq<u8>, PoolWrite) decreases k {
     if 0 < k <= s.len() { let r = w_fold(p, s, k - 1, f); let e = f(r.1, s[k - 1]); (r.0 + e.0, e.1) } else { (Seq::<u8>::empty(), p) }
@@ -195,9 +219,11 @@ def build(u):
     u.preamble('common.rs')
     u.preamble('bytes.rs')
     add_classwrite(u, [])
-    opaque(u, ['ClassName', 'PackageName', 'JavaString', 'ParameterName', 'InnerClassFlags', 'ParameterFlags', 'PoolWrite', 'Labels', 'Label', 'Handle'])
+    opaque(u, ['ClassName', 'PackageName', 'JavaString', 'ParameterName', 'InnerClassFlags', 'ParameterFlags', 'PoolWrite', 'Labels', 'Label', 'Handle', 'LabelRange', 'LocalVariableName', 'FieldDescriptor', 'FieldSignature'])
     u.item(T + 'method/code.rs', 'struct', 'Exception', derives=[])
     u.item('duke/src/simple_class_writer/pool.rs', 'struct', 'BootstrapMethodWrite', derives=[])
+    u.item(T + 'method/code.rs', 'struct', 'LvIndex', derives=[])
+    u.item(T + 'method/code.rs', 'struct', 'Lv', derives=[])
     u.item(T + 'class.rs', 'struct', 'InnerClass', derives=[])
     u.item(T + 'method.rs', 'struct', 'MethodParameter', derives=[])
     u.raw(STUBS)
@@ -259,4 +285,23 @@ def build(u):
          ensures=[C('C02.warm.BOOTSTRAP_METHODS.count-equals-the-number-of-methods-each-with-its-handle-its-argument-count-and-its-argument-indices',
                     f'res.is_ok() ==> {n} <= 0xffff && final(w).bytes() == {W0} + {cnt} + w_fold({P0}, {M}, {n} as int, {f}).0'),
                   C('C02.warm.BOOTSTRAP_METHODS.pool-holds-exactly-the-puts-of-the-handles-in-order', f'res.is_ok() ==> *final(pool) == w_fold({P0}, {M}, {n} as int, {f}).1')])
+    # ---- LocalVariableTable / LocalVariableTypeTable: one entry per local variable with a descriptor / signature; the count is the variable `desc` / `sign` the
+    # counting loop of write_code left (unit wattrs proves desc == count_desc(..) / sign == count_sign(..) at the end of that loop)
+    for attr, cntvar, cntfn, enc in (('LOCAL_VARIABLE_TABLE', 'desc', 'count_desc', 'e_lvt'), ('LOCAL_VARIABLE_TYPE_TABLE', 'sign', 'count_sign', 'e_lvtt')):
+        body, line = closure_of(u, 'write_code', attr)
+        Lv_, W0, P0 = 'local_variables@', 'old(w).bytes()', '*old(pool)'
+        cnt = f'be16({cntvar} as u16)'
+        f = f'|q: PoolWrite, x| {enc}(*labels, q, x)'
+        lab = f'C02.warm.{attr}.inv.count-then-one-entry-per-variable-that-has-one-so-far'
+        u.fn(W, f'write_code::warm_code_{attr}', ret='res', proof_label=lab,
+             synth=dict(sig=f'pub fn warm_code_{attr}<Wr: ClassWrite>(w: &mut Wr, pool: &mut PoolWrite, local_variables: &Vec<Lv>, labels: &Labels, desc: usize, sign: usize) -> Result<()>', body='{' + body + '}', line=line),
+             requires=[f'desc == count_desc({Lv_}, {Lv_}.len() as int)', f'sign == count_sign({Lv_}, {Lv_}.len() as int)'],
+             opt_rewrites=[(r'\bfor lv in local_variables \{', 'for lv in iter: local_variables {')],
+             loops={0: dict(invariant=[C(lab, f'{cntvar} <= 0xffff && w.bytes() == {W0} + {cnt} + w_fold({P0}, {Lv_}, iter.index@ as int, {f}).0 && *pool == w_fold({P0}, {Lv_}, iter.index@ as int, {f}).1 '
+                                              f'&& w.infallible() == old(w).infallible()')],
+                            body_start=f'proof {{ lemma_fold_step({P0}, {Lv_}, iter.index@ as int, {f}, {W0} + {cnt}); }}',
+                            body_end=f'proof {{ assert(w.bytes() =~= {W0} + {cnt} + w_fold({P0}, {Lv_}, iter.index@ as int + 1, {f}).0); }}')},
+             ensures=[C(f'C02.warm.{attr}.count-is-the-number-of-variables-that-have-one-and-exactly-those-follow-in-jvms-layout',
+                        f'res.is_ok() ==> {cntvar} <= 0xffff && final(w).bytes() == {W0} + {cnt} + w_fold({P0}, {Lv_}, {Lv_}.len() as int, {f}).0'),
+                      C(f'C02.warm.{attr}.pool-holds-exactly-the-puts-of-the-entries-in-order', f'res.is_ok() ==> *final(pool) == w_fold({P0}, {Lv_}, {Lv_}.len() as int, {f}).1')])
     u.drop('closure bodies of write_attribute(&mut buffer, pool, attribute::X, |w, pool| { .. }) lifted to functions warm_<level>_<X>(w, pool, <captured list>) { <closure body> }')
